@@ -1,6 +1,6 @@
 import argparse, json, os, sys, time
 from common import *
-import props, stages, corr_rt, corr_cc, corr_it, corr_tb
+import props, stages, corr_rt, corr_cc, corr_it, corr_tb, corr_k8
 
 CORRS = {
     "k1": corr_rt.k1,
@@ -10,6 +10,7 @@ CORRS = {
     "k1i": corr_rt.k1i,
     "race": corr_rt.race,
     "tb": corr_tb.tb,
+    "k8": corr_k8.k8,
 }
 
 
@@ -89,7 +90,7 @@ def main(argv):
             return bool(d.get("impl_vs_spec", True))
         if name == "k2":
             return bool(d.get("impl_deeper"))
-        if name in ("cc:k6a", "cc:k6d", "k3:native", "tb:run", "tb:opt", "tb:accept"):
+        if name in ("cc:k6a", "cc:k6d", "k3:native", "tb:run", "tb:opt", "tb:accept", "k8:c15", "k8:c16"):
             return True
         if name == "cc:k6e":
             return "Buildable=True" in d.get("model", "") or "Buildable=true" in d.get("model", "")
